@@ -41,6 +41,7 @@ class Runner:
         self.reported = set()      # signatures already saved in this run
         self.harness_error = None
         self.slowest = (0.0, None)
+        self.timeouts = 0
 
     def run_case(self, case, reraise):
         """Returns normally if the case passed / was excluded / hit a known finding."""
@@ -65,8 +66,15 @@ class Runner:
                 if dt > self.slowest[0]:
                     self.slowest = (dt, core.readable(pristine, 6))
         except CaseTimeout as e:
-            e.args = (str(e) + ' on case ' + json.dumps(core.enc(pristine))[:6000],)
-            raise
+            # a slow case is inconclusive, never a violation: it is counted as excluded - but only a few per shard
+            # (a change that makes the code hang must not turn a check green)
+            rec.evaluations += 1
+            rec.excluded['case exceeded the %.0f s per-case time limit (inconclusive)' % CASE_TIMEOUT] += 1
+            self.timeouts += 1
+            if self.timeouts > 3:
+                e.args = (str(e) + ' (more than 3 such cases in this shard) on case ' + json.dumps(core.enc(pristine))[:6000],)
+                raise
+            return
         except Discard as d:
             rec.evaluations += 1
             rec.excluded[str(d)] += 1
@@ -166,7 +174,7 @@ class CaseTimeout(BaseException):
     unless a clause catches it itself because termination is what its property is about (C04)."""
 
 
-CASE_TIMEOUT = float(os.environ.get('VERIF_CASE_TIMEOUT', '240'))
+CASE_TIMEOUT = float(os.environ.get('VERIF_CASE_TIMEOUT', '240'))     # raised to 600 s in the thorough tier (main)
 
 
 def _alarm(signum, frame):
@@ -189,6 +197,9 @@ def main(argv):
         if mode == 'run':
             pid, cname, shard, nshards, tier, seed, outpath = argv[1:8]
             shard, nshards, seed = int(shard), int(nshards), int(seed)
+            if tier == 'thorough' and 'VERIF_CASE_TIMEOUT' not in os.environ:
+                global CASE_TIMEOUT
+                CASE_TIMEOUT = 600.0
             mod = load_prop(pid)
             clause = find_clause(mod, cname)
             r = Runner(pid, clause, known)
